@@ -732,7 +732,8 @@ Fixpoint replay (fuel : nat) (dir : bool) (seg : bytes) (cc cs : bytes) (ptc pts
     end
   end.
 
-Definition expect_wraps (s : stream_rec) : N := (u64 (st_last s - st_first s + P64) + 1000) / WRAP_NS.
+(* reader.go:481: uint64 subtraction LastPacketTimeNS - FirstPacketTimeNS, + 1us, / (1us << 32) *)
+Definition expect_wraps (s : stream_rec) : N := (u64 (st_last s + P64 - st_first s) + 1000) / WRAP_NS.
 
 Definition data (r : reader) (s : stream_rec) : option (list chunk) :=
   let f := r_file r in
